@@ -20,6 +20,10 @@ CONF_T = CONF_Q + [("isi", {"MRTS": 40 * U}), ("isi", {"MRTS": "auto"}),
                    ("order", {"max_tau": 2 * U})]
 
 
+CONF_AUTO = [("isi", {"MRTS": "auto"}), ("spike", {"MRTS": "auto", "RI": True}),
+             ("sync", {"MRTS": "auto"}), ("order", {"MRTS": "auto"})]
+# index selections tried for N >= 3 (whole-recording comparison only)
+SELS = {3: [[2, 0], [1, 2, 0]], 4: [[3, 1], [2, 0, 3, 1]]}
 CONF_Q4 = [("isi", {"MRTS": 2 * U}), ("spike", {"RI": True}), ("sync", {"max_tau": U}),
            ("order", {})]
 
@@ -38,8 +42,9 @@ def intervals(k, tier):
 
 def plan(tier):
     if tier == "quick":
-        specs = [(2, [("dense", 1, 3)], CONF_Q, "all"), (2, [("dense", 4, 5)], CONF_Q, "some"),
-                 (3, [("dense", 1, 3)], CONF_Q, "some"),
+        specs = [(2, [("dense", 1, 3)], CONF_Q + CONF_AUTO, "all"),
+                 (2, [("dense", 4, 5)], CONF_Q, "some"),
+                 (3, [("dense", 1, 3)], CONF_Q + CONF_AUTO, "some"),
                  (4, [("dense", 1, 2)], CONF_Q4, "some")]
     else:
         specs = [(2, [("dense", 1, 6)], CONF_T, "all"), (3, [("dense", 1, 4)], CONF_T, "all"),
@@ -83,13 +88,16 @@ def _fns(name):
             "order": (spk.spike_train_order, spk.spike_train_order_profile)}[name]
 
 
-def evaluate(r, trains, edges, name, kw, ivals, be, rank=()):
+def evaluate(r, trains, edges, name, kw, ivals, be, rank=(), indices=None):
     import pyspike as spk
     sts = [spk.SpikeTrain(t, edges) for t in trains]
     dist, prof = _fns(name)
-    cls = "N%d" % len(trains)
+    cls = "N%d" % len(trains) + ("" if indices is None else "/indices")
     case = {"trains": trains, "edges": edges, "measure": name, "kwargs": kw}
     args = sts if len(sts) == 2 else [sts]
+    if indices is not None:
+        case["indices"] = indices
+        kw = dict(kw, indices=indices)
     try:
         p = prof(*args, **kw)
     except Exception as e:
@@ -130,6 +138,10 @@ def check_state(r, k, masks, task):
     for ci, (name, kw) in enumerate(task["conf"]):
         ivals = [None] if name == "order" else iv_all
         evaluate(r, trains, edges, name, kw, ivals, task["backend"], (k, ns, ci))
+        if len(trains) in SELS and name in ("order", "sync", "isi"):
+            for sel in SELS[len(trains)]:
+                evaluate(r, trains, edges, name, kw, [None], task["backend"], (k, ns, ci, 1),
+                         indices=sel)
     if r.states % 499 == 1:
         r.sample({"trains": trains, "edges": edges, "n_intervals": len(iv_all)})
 
@@ -143,5 +155,6 @@ def replay(rec):
     c = rec["case"]
     iv = c.get("interval")
     evaluate(r, c["trains"], c["edges"], c["measure"], c["kwargs"],
-             [tuple(iv) if iv else None], rec["backend"], tuple(rec.get("rank", ())))
+             [tuple(iv) if iv else None], rec["backend"], tuple(rec.get("rank", ())),
+             indices=c.get("indices"))
     return r
